@@ -34,21 +34,14 @@ from . import common
 
 PID = "C19"
 
-# ---- The four baseline defects found by this check (jax rmatvecad shape test;
+# ---- The baseline defects found by this check (jax rmatvecad shape test;
 # torch batch=True with len(dims) != len(dimsd), flatten False and True; torch
 # flat-input gradient shape) were repaired in /repo (commits dfcf977, 1310770,
-# 5b7f0c6): nothing is suppressed any more.  A reintroduction is a VIOLATION.
-# Still present (verified on /repo): two PyTensorOperator instances wrapping DIFFERENT
-# operators with identical (dims, dimsd, shape) compare equal (__props__ ignores the
-# operator), so pytensor's graph merge collapses A(x) and B(x) into one node.
-PROPOSED_KNOWN = [
-    {"id": "C19-pytensor-props-merge", "property": "C19", "framework": "pytensor", "kind": ["OFwd", "OScaled"],
-     "what": "PyTensorOperator(A)(x) and PyTensorOperator(B)(x) for two different operators with equal dims/dimsd/shape in one "
-             "compiled graph are merged (Op.__eq__ via __props__=('dims','dimsd','shape') ignores the wrapped operator): one of "
-             "them silently returns the other's value",
-     "trigger": "two wrappers of different same-shaped operators applied to the same variable in one pytensor.function"},
-]
-RAISES = {"C19-pytensor-props-merge": None}      # None: no exception, a wrong value
+# 5b7f0c6, d8aeac6): nothing is suppressed any more.  A reintroduction is a VIOLATION.
+# (The fifth defect found here - PyTensorOperator wrappers of different same-shaped
+# operators comparing equal and being merged by pytensor - was repaired by d8aeac6.)
+PROPOSED_KNOWN = []
+RAISES = {}
 
 
 def known_match(framework, cfg, ob):
